@@ -25,6 +25,12 @@ pub(super) fn reduce_with(
 ) -> Result<TulispObject, Error> {
     let mut first = list.car_and_then(|x| eval(ctx, x))?;
     let mut rest = list.cdr()?;
+    if list.consp() && rest.null() && !first.numberp() {
+        return Err(Error::new(
+            ErrorKind::TypeMismatch,
+            format!("Expected number, got: {}", first),
+        ));
+    }
     while rest.is_truthy() {
         let next = rest.car_and_then(|x| eval(ctx, x))?;
         first = method(&first, &next)?;
